@@ -25,7 +25,8 @@ def main():
     if ap.returncode:
         print("PATCH DOES NOT APPLY", ap.stderr[:300]); return 1
     rc1, out1 = run_demo()
-    t = sh(["/venv/bin/python", "-m", "pytest", "-q", "-p", "no:cacheprovider", "--timeout=900", "-n", "6"], cwd=WT, timeout=3000)
+    # the pinned baseline command (serial: under xdist two synthesis tests are order-dependent and flaky on the clean tree too)
+    t = sh(["/venv/bin/python", "-m", "pytest", "-q", "-p", "no:cacheprovider", "--timeout=900", "--continue-on-collection-errors"], cwd=WT, timeout=3000)
     tail = t.stdout.strip().splitlines()[-1] if t.stdout.strip() else ""
     failed = sorted(re.findall(r"^FAILED (\S+)", t.stdout, re.M))
     m = re.search(r"(\d+) passed", tail)
@@ -44,7 +45,7 @@ def main():
     meta = json.load(open(os.path.join(cand, "meta.json")))
     meta["confirmed"] = {"base_commit": sh(["git", "-C", "/repo", "rev-parse", "--short", "HEAD"]).stdout.strip(),
                          "demo_clean_rc": rc0, "demo_patched_rc": rc1, "pytest": tail, "pytest_failed": failed,
-                         "ran": ["demo.py <worktree> on clean and patched scratch worktree", "pytest -q -p no:cacheprovider --timeout=900 -n 6 on the patched worktree"],
+                         "ran": ["demo.py <worktree> on clean and patched scratch worktree", "pytest -q -p no:cacheprovider --timeout=900 --continue-on-collection-errors (serial, the pinned baseline command) on the patched worktree"],
                          "demo_patched_output": out1[-300:]}
     json.dump(meta, open(os.path.join(dst, "meta.json"), "w"), indent=1)
     return 0
